@@ -29,7 +29,11 @@
                                          sending frames (timeout re-armed per received message)
      CloseCode1000WithoutPeerClose       server: closed with code 1000 although no peer close frame
                                          was received and a receive() saw CLOSING (the _closing short-cut)
-     CancelledCloseLeavesTransportOpen   closed, a close() call ended by CancelledError, transport open *)
+     CloseCodeOverwrittenAfterClose      close_code differs from the one reported when close() returned True
+                                         (EofStream handler of receive() writing 1000 over 1006)
+     CancelledCloseSkipsCleanup          closed, a close() call ended by CancelledError, and the transport is
+                                         still open or (server) the close code is not 1006: the cancel
+                                         point `await self._close_wait` has no clean-up *)
 EXTENDS Naturals, Integers, Sequences, FiniteSets, TLC, TraceBatch
 
 VARIABLES tid, l, m, bad
@@ -42,7 +46,7 @@ NoCall == [api |-> "", at |-> 0, rx0 |-> 0]
 
 M0 == [ nClose |-> 0, closeSent |-> FALSE, rxClose |-> 0, rxBad |-> FALSE, nRx |-> 0,
         abn |-> FALSE, cut |-> FALSE, sawClosing |-> FALSE, cancelledClose |-> FALSE,
-        call |-> <<>>, blkRecv |-> FALSE, blkClose |-> FALSE ]
+        ccTrue |-> 0, call |-> <<>>, blkRecv |-> FALSE, blkClose |-> FALSE ]
 
 R(mm, b) == [m |-> mm, bad |-> b]
 
@@ -61,7 +65,8 @@ Step(e, c) ==
                                 !.abn = @ \/ e.info \in {"Timeout", "Cancelled", "ConnErr"}
                                           \/ (e.k = "close" /\ dur >= c.closeTimeout),
                                 !.sawClosing = @ \/ (e.k = "receive" /\ e.info = "CLOSING"),
-                                !.cancelledClose = @ \/ (e.k = "close" /\ e.info = "Cancelled")]
+                                !.cancelledClose = @ \/ (e.k = "close" /\ e.info = "Cancelled"),
+                                !.ccTrue = IF @ = 0 /\ e.k = "close" /\ e.info = "True" THEN e.cc ELSE @]
             IN IF e.k = "close" /\ e.info \notin {"True", "False", "Cancelled"} THEN R(m1, "CloseRaises")
                ELSE IF e.k = "close" /\ e.info # "Cancelled" /\ dur > c.closeTimeout
                     THEN R(m1, IF c.side = "client" /\ m.nRx > cl.rx0 THEN "CloseTimeoutRearmedByTraffic"
@@ -88,9 +93,11 @@ Step(e, c) ==
                  ELSE IF m.blkRecv /\ (e.closed \/ e.tcl \/ m.rxClose # 0 \/ m.rxBad \/ m.cut)
                       THEN "ReceiveNotStuck"
                  ELSE IF e.closed /\ ~e.tcl
-                      THEN (IF m.cancelledClose THEN "CancelledCloseLeavesTransportOpen" ELSE "ClosedClosesTransport")
+                      THEN (IF m.cancelledClose THEN "CancelledCloseSkipsCleanup" ELSE "ClosedClosesTransport")
+                 ELSE IF e.closed /\ m.ccTrue # 0 /\ e.cc # m.ccTrue THEN "CloseCodeOverwrittenAfterClose"
                  ELSE IF e.closed /\ e.cc \notin Allowed(m, e)
-                      THEN (IF c.side = "server" /\ e.cc = 1000 /\ m.sawClosing THEN "CloseCode1000WithoutPeerClose"
+                      THEN (IF c.side = "server" /\ m.cancelledClose /\ e.cc # 1006 THEN "CancelledCloseSkipsCleanup"
+                            ELSE IF c.side = "server" /\ e.cc = 1000 /\ m.sawClosing THEN "CloseCode1000WithoutPeerClose"
                             ELSE "CloseCodeRule")
                  ELSE "")
       [] OTHER -> R(m, "")
